@@ -27,6 +27,7 @@ import YashModel.Proc.FlowN
 import YashModel.Proc.Order
 import YashModel.Proc.TrapLemmas
 import YashModel.Proc.TrapGlue
+import YashModel.Proc.BangLemmas
 import YashModel.Generated.WaitCore
 import YashModel.Proc.Spec
 namespace YashModel.Proc
@@ -1434,6 +1435,70 @@ example :
   decide
 
 
+/-- ★ `$!` is unchanged by every statement that starts no asynchronous list — foreground pipelines (plain, negated,
+    flow, `fd`), subshells and command substitutions of every shape (their own `&` included: per subshell), `wait`
+    with operands, without, with an invalid option, in a subshell, `kill`, `set -o/+o`, `trap` — in both columns:
+    the list of pids of the asynchronous lists is the same afterwards, hence its last element, the value of `$!`. -/
+theorem bang_unchanged_by_foreground (st : St) (s : Stmt) (hf : s.foreground = true) :
+    (st.stmt s).pids = st.pids ∧ (st.stmt s).bangPid = st.bangPid := by
+  have key : (st.stmt s).pids = st.pids := by
+    cases s <;> simp only [Stmt.foreground] at hf <;> (try exact absurd hf (by decide)) <;> simp only [St.stmt]
+    case pf => rfl
+    case pipe neg ms =>
+      have := pids_forkWait st (st.members ms)
+      cases hp : pipeOutput ms <;> simp only [hp] <;> exact this
+    case flow fs => exact pids_forkWait st _
+    case fd => exact pids_subshell st _
+    case wj ops => exact pids_waitOps st ops
+    case monitor => rfl
+    case kill sig k =>
+      split
+      · rfl
+      · repeat' split
+        all_goals first | rfl | exact pids_killJob _ _ _
+    case ti => rfl
+    case gj => rfl
+    case gl => exact pids_subshell st _
+    case wx => rfl
+    case tcx => rfl
+    case w => exact pids_waitAllJobs st
+    case wu => exact pids_waitOps st _
+    case g n => exact pids_subshell st n
+    case gg n => exact pids_subshell st _
+    case gp ms =>
+      have := pids_subshell st (pipeFold st.useSys st.pf (nestedWait st.useSys st.digits (st.runs + 2) (st.members ms)))
+      cases hp : pipeOutput ms <;> simp only [hp] <;> exact this
+    case gb n => exact pids_subshell st _
+    case gw a b => exact pids_subshell st _
+    case q n => exact pids_subshell st n
+    case qe w n => exact pids_subshell st n
+    case qq n => exact pids_subshell st _
+    case qb n => exact pids_subshell st _
+  exact ⟨key, by unfold St.bangPid; rw [key]⟩
+
+/-- ★ … and an asynchronous list sets it to the process `wait $!` must wait for: after `St.newJob` (what `bg M…`,
+    `bn`, `ts`, … call) the value of `$!` is the pid recorded for the new job — in the model column the index of the
+    child just forked (for `a | b &`, `{ …; } &`, `( … ) &` alike: ONE child of the shell, which runs the list) —,
+    that pid is in the job table, and all earlier pids are still there in order. -/
+theorem bang_after_async (st : St) (v kind : Nat) :
+    let st' := st.newJob v kind
+    st'.pids = st.pids ++ [if st.useSys then st.sys.children.length else st.nasync + 1] ∧
+    st'.bangPid = some (if st.useSys then st.sys.children.length else st.nasync + 1) ∧
+    (if st.useSys then st.sys.children.length else st.nasync + 1) ∈ st'.active := by
+  intro st'
+  have h1 : st'.pids = st.pids ++ [if st.useSys then st.sys.children.length else st.nasync + 1] := by
+    show (st.newJob v kind).pids = _
+    unfold St.newJob St.pids
+    cases hu : st.useSys <;> simp [St.fork]
+  refine ⟨h1, by unfold St.bangPid; rw [h1]; simp, ?_⟩
+  show _ ∈ (st.newJob v kind).active
+  unfold St.newJob
+  cases hu : st.useSys <;> simp [St.fork]
+
+example : (Stmt.pipe false [.st 1, .st 2]).foreground = true ∧ (Stmt.gb 3).foreground = true ∧
+    (Stmt.bg [.st 1]).foreground = false := by decide
+
+
 section WaitTrap
 open YashModel.Generated.ProcConsts (SIGNAL_EXIT_OFFSET EXIT_SUCCESS)
 
@@ -1709,6 +1774,21 @@ theorem wait_trap_refines_wait_any {t t' : TSys} (h : TInv t) (hq : t.sigPending
       · simp at hs
     · simp at hs
 
+
+
+/-- The trap action's body (`Command::execute` of `wait`: `with_exit_status_and_divert(ExitStatus::from(signal), divert)`):
+    whatever the action does — ends normally with any status, looks at `$?`, `return`s — the exit status of the
+    interrupted `wait` is that of the SIGNAL (384 + σ = `Spec.waitInterrupted`); the action sees in `$?` the value from
+    before the trap; a `return r` in the action makes the function around `wait` return `r`.  (`tsr`, `tsq`, `tsf` run
+    this against the real shell.) -/
+theorem trap_action_result (σ q r : Nat) (act : TrapAct) :
+    (trappedResult SIGNAL_EXIT_OFFSET σ act).1 = Spec.waitInterrupted σ ∧
+    statusAfter (trappedResult SIGNAL_EXIT_OFFSET σ .plain) = Spec.waitInterrupted σ ∧
+    statusAfter (trappedResult SIGNAL_EXIT_OFFSET σ (.probe q)) = Spec.waitInterrupted σ ∧
+    statusAfter (trappedResult SIGNAL_EXIT_OFFSET σ (.ret r)) = r ∧
+    act.entryStatus q = q := by
+  refine ⟨?_, ?_, ?_, rfl, rfl⟩ <;>
+    simp only [trappedResult, statusAfter, TrapAct.divert, Spec.waitInterrupted, SIGNAL_EXIT_OFFSET, Option.getD] <;> omega
 
 /-- The shape of `wait_for_any_job_or_trap` that `tparentStep` transcribes, re-extracted from
     yash-builtin/src/wait/core.rs on every run (`tools/tables/proc.py` → `Generated/WaitCore.lean`; a statement the
